@@ -525,6 +525,18 @@ func (ex *Exec) strSlice(fr *Frame, site ssa.Instruction, s Value, lo, hi ssa.Va
 		if lo == nil && hi == nil {
 			return r
 		}
+		// s[k:] with k inside a leading constant part
+		if hi == nil {
+			k := ex.concreteInt(fr.get(lo), "rope slice low", site)
+			parts := ropeParts(r)
+			if len(parts) > 0 {
+				if t, ok := parts[0].(*Term); ok {
+					if c, ok := t.StrVal(); ok && k >= 0 && k <= len(c) {
+						return mkRope(append([]interface{}{mkStr(c[k:])}, parts[1:]...))
+					}
+				}
+			}
+		}
 		panic(unsupported("slicing a rope at " + ex.site(site)))
 	}
 	var l, h *Term = mkInt(0), tStrLen(st)
